@@ -114,7 +114,9 @@ Record obs := {
   ob_ret : N;              (* when Close returned *)
   ob_eof : option N;       (* when the child saw its standard input close *)
   ob_term : option N;      (* when the child received SIGTERM *)
-  ob_killed : bool }.      (* the child died of SIGKILL *)
+  ob_killed : bool;        (* the child died of SIGKILL *)
+  ob_noise : N }.          (* worst scheduling lateness the harness and the child measured
+                              on their own 5 ms probe sleeps while this Close ran *)
 
 (* C35's statement, nothing more: Close returned and the process has exited *)
 Definition check_C35 (o : obs) : bool := ob_returned o && ob_dead o.
@@ -123,11 +125,12 @@ Definition check_C35 (o : obs) : bool := ob_returned o && ob_dead o.
 Definition obs_of (p : proc) (o : outcome) : obs :=
   {| ob_returned := true; ob_dead := o_exit o <=? o_ret o; ob_ret := o_ret o;
      ob_eof := o_stdin_at o; ob_term := o_term_at o;
-     ob_killed := match o_stage o with StKill => true | _ => false end |}.
+     ob_killed := match o_stage o with StKill => true | _ => false end;
+     ob_noise := 0 |}.
 
 (* ------------------------------------------------------------------ *)
 (* Correspondence of an observed run with the model, robust against jitter:
-   only statements that no amount of lateness below [margin] can falsify. *)
+   only one-sided statements that lateness below [margin] cannot falsify. *)
 
 Definition stage_eqb (a b : stage) : bool :=
   match a, b with
@@ -152,21 +155,34 @@ Definition obs_stage (o : obs) : stage :=
 Definition ole (a : N) (b : option N) (eps : N) : bool :=
   match b with Some t => a <=? t + eps | None => true end.
 
-(* [eps]: clock granularity; [margin]: lateness the stage prediction must
-   survive; [slack]: how much later than predicted the return may be *)
-Definition corr_C35 (eps margin slack : N) (d : N) (p : proc) (o : obs) : bool :=
-  (* the waits are at least as long as the model's: signals never come early *)
+Definition stage_rank (a : stage) : N :=
+  match a with StSelf => 0 | StStdin => 1 | StTerm => 2 | StKill => 3 end.
+Definition stage_le (a b : stage) : bool := stage_rank a <=? stage_rank b.
+
+(* [eps]: clock granularity; [margin]: lateness each one-sided prediction must
+   survive; [slack]: how much later than the latest prediction the return may
+   be.  Lateness only delays: a slow process can only push Close to a later
+   stage, late timers only to an earlier one; neither makes anything happen
+   earlier than in the punctual model.  So:
+   - no signal earlier than the model's waits allow;
+   - not escalated further than the model does for a process that is [margin]
+     slower (with punctual timers);
+   - escalated at least as far as the model does with timers [margin] late;
+   - the return is not before the punctual model's, and not later than the
+     model's with both latenesses, plus [slack]. *)
+Definition corr_C35 (eps margin slack quiet : N) (d : N) (p : proc) (o : obs) : bool :=
   ole d (ob_eof o) eps
   && ole (d + w_stdin) (ob_term o) eps
   && (if ob_killed o then d + w_stdin + w_term <=? ob_ret o + eps else true)
-  (* where both a late timer and a slow process leave the stage unchanged, the
-     observed stage and return time are the model's *)
-  && match close_run d p env0, close_run d p (late margin), close_run d (slow margin p) env0 with
-     | Some m0, Some ma, Some mb =>
-         if stage_eqb (o_stage ma) (o_stage mb) && stage_eqb (o_stage ma) (o_stage m0) then
-           implb (ob_returned o)
-             (stage_eqb (obs_stage o) (o_stage m0)
-              && (o_ret m0 <=? ob_ret o + eps) && (ob_ret o <=? o_ret m0 + slack))
-         else true
-     | _, _, _ => true
-     end.
+  (* the two-sided comparison only when the machine was quiet enough for
+     [margin] to cover the lateness (measured independently of the code) *)
+  && implb (ob_returned o && (ob_noise o <=? quiet))
+       match close_run d p env0, close_run d p (late margin), close_run d (slow margin p) env0,
+             close_run d (slow margin p) (late margin) with
+       | Some m0, Some ma, Some mb, Some mc =>
+           stage_le (obs_stage o) (o_stage mb)
+           && stage_le (o_stage ma) (obs_stage o)
+           && (o_ret m0 <=? ob_ret o + eps)
+           && (ob_ret o <=? o_ret mc + slack)
+       | _, _, _, _ => true
+       end.
